@@ -328,5 +328,5 @@ fn check(ctx: &Ctx, c: &BatchCase) -> CaseResult {
 }
 
 pub fn run(ctx: &Ctx) {
-    ctx.run("fetch-batches", case_strategy(), ctx.cases(160, 4000), |c: &BatchCase| check(ctx, c));
+    ctx.run("fetch-batches", case_strategy(), ctx.cases(160, 1_600), |c: &BatchCase| check(ctx, c));
 }
